@@ -663,7 +663,14 @@ class SQLitePool(Pool):
         elif not pool.create_db and not os.path.exists(filename):
             throw(IOError, "Database file is not found: %r" % filename)
 
-        pool.con = con = sqlite.connect(filename, isolation_level=None, **pool.kwargs)
+        con = sqlite.connect(filename, isolation_level=None, **pool.kwargs)
+        try: pool._configure(con)
+        except:
+            # a half-configured connection must not stay in the pool
+            con.close()
+            raise
+        pool.con = con
+    def _configure(pool, con):
         con.text_factory = _text_factory
 
         def create_function(name, num_params, func):
